@@ -1626,6 +1626,17 @@ impl VirtualFileSystem for Memfs {
             .into());
         }
 
+        // Replacing a directory that still has children would orphan them
+        if let Some(existing) = guard.get_entry(&dst_first) {
+            if dst_first != src_root && existing.is_dir() && !existing.is_symlink() {
+                if let Some(ref files) = existing.files {
+                    if !files.is_empty() {
+                        return Err(PathError::dir_contains_files(dst_first).into());
+                    }
+                }
+            }
+        }
+
         let mut paths = vec![src_root.clone()];
         while let Some(src_path) = paths.pop() {
             let dst_path = if copy_into {
